@@ -57,6 +57,45 @@ def check_c13(prog, rep, tier, cfg):
     c13d(prog, rep)
     c13e(prog, rep)
     c13f(prog, rep)
+    c13g(prog, rep)
+
+
+def c13g(prog, rep):
+    """C13.g — the scanner's mode follows the tokens it hands out: LexState.in_asm is set to true exactly on the paths that return the
+    keyword `asm`, by the functions that scan words.  A flag computed from anything else than the returned kind (the raw keyword
+    lookup of a word that is then returned as an identifier — `Foo.Asm` —) switches the rest of the routine to the asm token rules."""
+    R = "C13.g"
+    writers = sorted({a[0].npath for a in prog.field_accesses(LX + "LexState", "in_asm") if a[3].startswith("write")})
+    if not rep.check(len(writers) >= 1, R, "anchor:in_asm-writers", "no function writes LexState.in_asm"):
+        return
+    n = 0
+    for w in writers:
+        b = prog.body(w)
+        try:
+            tb = Table(prog, b, inline=1, opaque=("find_identifier_end", "get_word_token_type", "eq_ignore_ascii_case"))
+        except TooComplex as e:
+            rep.fail(R, "mode-table:" + short(w), "%s is no longer a loop-free classifier: %s" % (short(w), e))
+            continue
+        bad = []
+        for (cons, res), eff in zip(tb.rows, tb.effects):
+            flag = [render(v) for k, v in eff if k.endswith(".in_asm")]
+            kind = res.a[2][1] if res.kind == "agg" and len(res.a[2]) == 2 else None
+            if kind is None:
+                bad.append("the result is not (offset, kind): %s" % render(res)[:60])
+                continue
+            rk = render(kind)
+            raw = rk[5:] if rk.startswith("call:") else (rk[6:] if rk.startswith("place:") else rk)
+            is_asm = rk == "Keyword(Asm)" or any(c[0] == "is" and c[2] == "Asm" and str(c[1]) == raw for c in cons)
+            not_asm = not is_asm and (rk in ("Identifier",) or rk.startswith("Keyword(") or any(c[0] == "not" and "Asm" in c[2] and str(c[1]) == raw for c in cons))
+            n += 1
+            if flag and flag[-1] == "True" and not is_asm:
+                bad.append("asm mode is switched on while the token returned is %s" % rk[:50])
+            if flag and flag[-1] not in ("True", "False"):
+                bad.append("asm mode is set to %s, which is not decided by the returned kind" % flag[-1][:60])
+            if w.endswith("identifier_or_keyword") and is_asm and (not flag or flag[-1] != "True"):
+                bad.append("the keyword `asm` is returned without switching asm mode on")
+        rep.check(not bad, R, "mode-follows-returned-kind:" + short(w), "%s: %s" % (short(w), bad[:2]), where="%s:%d" % (b.file, b.line), instance={"writer": short(w), "paths": len(tb.rows)})
+    rep.floor(R, "paths of the word scanners classified", n, 4)
 
 
 # conditional directives whose argument is an expression (Delphi: `{$IF expr}`, `{$ELSEIF expr}`); an expression may contain string
